@@ -38,23 +38,28 @@ pub static mut DLOG_LEN: [usize; DLOG_CALLS] = [0; DLOG_CALLS];
 pub static mut DLOG_OUT: [[u8; 32]; DLOG_CALLS] = [[0; 32]; DLOG_CALLS];
 pub static mut DLOG_N: usize = 0;
 
-pub fn digest_of_stub(data: impl AsRef<[u8]>) -> ethdigest::Digest {
-    let d = data.as_ref();
+fn digest_record<const CH: usize>(d: &[u8]) -> ethdigest::Digest {
     unsafe {
         let i = DLOG_N;
         assert!(i < DLOG_CALLS, "more Keccak invocations than the specification allows");
-        assert!(d.len() <= DLOG_BYTES, "hashed input longer than the harness bound");
+        assert!(d.len() <= 16 * CH && d.len() <= DLOG_BYTES, "hashed input longer than the harness bound");
         DLOG_LEN[i] = d.len();
-        let mut k = 0;
-        while k < d.len() {
-            DLOG[i][k] = d[k];
-            k += 1;
-        }
+        copy_bytes_sym::<CH>(&mut DLOG[i], d);
         let out: [u8; 32] = kani::any();
         DLOG_OUT[i] = out;
         DLOG_N = i + 1;
         ethdigest::Digest(out)
     }
+}
+
+/// recorder for preimages up to 192 bytes (needs unwind >= 13)
+pub fn digest_of_stub(data: impl AsRef<[u8]>) -> ethdigest::Digest {
+    digest_record::<12>(data.as_ref())
+}
+
+/// recorder for preimages up to 80 bytes (needs unwind >= 6)
+pub fn digest_of_stub80(data: impl AsRef<[u8]>) -> ethdigest::Digest {
+    digest_record::<5>(data.as_ref())
 }
 
 /// Number of Keccak invocations recorded so far (solver mode only).
@@ -65,20 +70,18 @@ pub fn digest_calls() -> usize {
 /// Asserts that the `i`-th Keccak invocation hashed exactly `expected` and that `result` is what it
 /// returned. Natively (replay) asserts `result == keccak256(expected)` with the real primitive.
 pub fn digest_expect(i: usize, expected: &[u8], result: &[u8; 32]) {
+    digest_expect_n::<12>(i, expected, result)
+}
+pub fn digest_expect80(i: usize, expected: &[u8], result: &[u8; 32]) {
+    digest_expect_n::<5>(i, expected, result)
+}
+fn digest_expect_n<const CH: usize>(i: usize, expected: &[u8], result: &[u8; 32]) {
     if stubs_active() {
         unsafe {
             assert!(i < DLOG_N, "expected Keccak invocation did not happen");
             assert!(DLOG_LEN[i] == expected.len(), "hashed input has the wrong length");
-            let mut k = 0;
-            while k < expected.len() {
-                assert!(DLOG[i][k] == expected[k], "hashed input differs from the specified preimage");
-                k += 1;
-            }
-            let mut k = 0;
-            while k < 32 {
-                assert!(DLOG_OUT[i][k] == result[k], "digest was not returned unchanged");
-                k += 1;
-            }
+            assert!(bytes_eq_sym::<CH>(&DLOG[i][..expected.len()], expected), "hashed input differs from the specified preimage");
+            assert!(eq32(&DLOG_OUT[i], result), "digest was not returned unchanged");
         }
     } else {
         let real = ethdigest::Digest::of(expected);
@@ -86,20 +89,186 @@ pub fn digest_expect(i: usize, expected: &[u8], result: &[u8; 32]) {
     }
 }
 
-/// Byte-wise slice equality written as an explicit loop (array `==` lowers to memcmp, which needs
-/// its own unwinding; see DESIGN.md 0.4).
+#[inline(always)]
+fn ld16(a: &[u8], i: usize) -> u128 {
+    u128::from_ne_bytes([
+        a[i], a[i + 1], a[i + 2], a[i + 3], a[i + 4], a[i + 5], a[i + 6], a[i + 7],
+        a[i + 8], a[i + 9], a[i + 10], a[i + 11], a[i + 12], a[i + 13], a[i + 14], a[i + 15],
+    ])
+}
+
+/// Slice equality in 16-byte steps, tail in 8/4/2/1 steps: the only loop runs len/16 times, so the
+/// unwind bound a harness needs is dictated by the code under test, not by the oracle. (Array `==`
+/// lowers to a per-byte memcmp loop, and every loop with a symbolic trip count is unrolled to the
+/// harness' unwind bound, so small bounds matter.)
 pub fn bytes_eq(a: &[u8], b: &[u8]) -> bool {
     if a.len() != b.len() {
         return false;
     }
+    let n = b.len(); // pass the side whose length is a compile-time constant as `b`
     let mut i = 0;
-    while i < a.len() {
-        if a[i] != b[i] {
+    while i + 16 <= n {
+        if ld16(a, i) != ld16(b, i) {
             return false;
         }
-        i += 1;
+        i += 16;
+    }
+    if n - i >= 8 {
+        if !(a[i] == b[i] && a[i + 1] == b[i + 1] && a[i + 2] == b[i + 2] && a[i + 3] == b[i + 3]
+            && a[i + 4] == b[i + 4] && a[i + 5] == b[i + 5] && a[i + 6] == b[i + 6] && a[i + 7] == b[i + 7]) {
+            return false;
+        }
+        i += 8;
+    }
+    if n - i >= 4 {
+        if !(a[i] == b[i] && a[i + 1] == b[i + 1] && a[i + 2] == b[i + 2] && a[i + 3] == b[i + 3]) {
+            return false;
+        }
+        i += 4;
+    }
+    if n - i >= 2 {
+        if !(a[i] == b[i] && a[i + 1] == b[i + 1]) {
+            return false;
+        }
+        i += 2;
+    }
+    if n - i >= 1 && a[i] != b[i] {
+        return false;
     }
     true
+}
+
+/// `dst[..src.len()] = src` in 16-byte steps (a memcpy of symbolic length is far more expensive for
+/// CBMC, a per-byte loop forces a large unwind bound).
+pub fn copy_bytes(dst: &mut [u8], src: &[u8]) {
+    let n = src.len();
+    let mut i = 0;
+    while i + 16 <= n {
+        dst[i] = src[i];
+        dst[i + 1] = src[i + 1];
+        dst[i + 2] = src[i + 2];
+        dst[i + 3] = src[i + 3];
+        dst[i + 4] = src[i + 4];
+        dst[i + 5] = src[i + 5];
+        dst[i + 6] = src[i + 6];
+        dst[i + 7] = src[i + 7];
+        dst[i + 8] = src[i + 8];
+        dst[i + 9] = src[i + 9];
+        dst[i + 10] = src[i + 10];
+        dst[i + 11] = src[i + 11];
+        dst[i + 12] = src[i + 12];
+        dst[i + 13] = src[i + 13];
+        dst[i + 14] = src[i + 14];
+        dst[i + 15] = src[i + 15];
+        i += 16;
+    }
+    if n - i >= 8 {
+        dst[i] = src[i];
+        dst[i + 1] = src[i + 1];
+        dst[i + 2] = src[i + 2];
+        dst[i + 3] = src[i + 3];
+        dst[i + 4] = src[i + 4];
+        dst[i + 5] = src[i + 5];
+        dst[i + 6] = src[i + 6];
+        dst[i + 7] = src[i + 7];
+        i += 8;
+    }
+    if n - i >= 4 {
+        dst[i] = src[i];
+        dst[i + 1] = src[i + 1];
+        dst[i + 2] = src[i + 2];
+        dst[i + 3] = src[i + 3];
+        i += 4;
+    }
+    if n - i >= 2 {
+        dst[i] = src[i];
+        dst[i + 1] = src[i + 1];
+        i += 2;
+    }
+    if n - i >= 1 {
+        dst[i] = src[i];
+    }
+}
+
+// ------------------------------------------------------------------------------------------------
+// Variants for slices whose length CBMC cannot resolve to a constant (Vec lengths read back from the
+// heap, lengths returned by the code under test). After a loop with a symbolic trip count the
+// induction variable is symbolic, and every later `a[i]` is an array-theory access (measured: 5.6 M
+// variables / 24 M clauses for a 36-byte copy). Here the loop runs a *constant* number CH of 16-byte
+// chunks and every index is a constant; positions beyond the real length are guarded out.
+macro_rules! guarded16 {
+    ($base:expr, $n:expr, |$idx:ident| $body:block) => {{
+        { let $idx = $base; if $idx < $n $body }
+        { let $idx = $base + 1; if $idx < $n $body }
+        { let $idx = $base + 2; if $idx < $n $body }
+        { let $idx = $base + 3; if $idx < $n $body }
+        { let $idx = $base + 4; if $idx < $n $body }
+        { let $idx = $base + 5; if $idx < $n $body }
+        { let $idx = $base + 6; if $idx < $n $body }
+        { let $idx = $base + 7; if $idx < $n $body }
+        { let $idx = $base + 8; if $idx < $n $body }
+        { let $idx = $base + 9; if $idx < $n $body }
+        { let $idx = $base + 10; if $idx < $n $body }
+        { let $idx = $base + 11; if $idx < $n $body }
+        { let $idx = $base + 12; if $idx < $n $body }
+        { let $idx = $base + 13; if $idx < $n $body }
+        { let $idx = $base + 14; if $idx < $n $body }
+        { let $idx = $base + 15; if $idx < $n $body }
+    }};
+}
+
+/// `dst[..src.len()] = src` for a source of symbolic length <= 16 * CH.
+pub fn copy_bytes_sym<const CH: usize>(dst: &mut [u8], src: &[u8]) {
+    let n = src.len();
+    assert!(n <= 16 * CH, "harness bound: copy longer than the stated maximum");
+    let mut c = 0;
+    while c < CH {
+        guarded16!(c * 16, n, |k| { dst[k] = src[k]; });
+        c += 1;
+    }
+}
+
+/// Slice equality for slices of symbolic length <= 16 * CH.
+pub fn bytes_eq_sym<const CH: usize>(a: &[u8], b: &[u8]) -> bool {
+    if a.len() != b.len() {
+        return false;
+    }
+    let n = a.len();
+    assert!(n <= 16 * CH, "harness bound: comparison longer than the stated maximum");
+    let mut same = true;
+    let mut c = 0;
+    while c < CH {
+        guarded16!(c * 16, n, |k| { if a[k] != b[k] { same = false; } });
+        c += 1;
+    }
+    same
+}
+
+/// 32-byte equality without any loop.
+pub fn eq32(a: &[u8; 32], b: &[u8; 32]) -> bool {
+    bytes_eq(&a[..16], &b[..16]) & bytes_eq(&a[16..], &b[16..])
+}
+
+/// Big-endian comparison `a < b` of 32-byte integers without a loop.
+pub fn lt32(a: &[u8; 32], b: &[u8; 32]) -> bool {
+    let hi = |x: &[u8; 32]| u128::from_be_bytes([x[0], x[1], x[2], x[3], x[4], x[5], x[6], x[7], x[8], x[9], x[10], x[11], x[12], x[13], x[14], x[15]]);
+    let lo = |x: &[u8; 32]| u128::from_be_bytes([x[16], x[17], x[18], x[19], x[20], x[21], x[22], x[23], x[24], x[25], x[26], x[27], x[28], x[29], x[30], x[31]]);
+    hi(a) < hi(b) || (hi(a) == hi(b) && lo(a) < lo(b))
+}
+
+pub fn is_zero32(a: &[u8; 32]) -> bool {
+    eq32(a, &[0u8; 32])
+}
+
+/// secp256k1 group order, big-endian.
+pub const SECP256K1_ORDER: [u8; 32] = [
+    0xff, 0xff, 0xff, 0xff, 0xff, 0xff, 0xff, 0xff, 0xff, 0xff, 0xff, 0xff, 0xff, 0xff, 0xff, 0xfe,
+    0xba, 0xae, 0xdc, 0xe6, 0xaf, 0x48, 0xa0, 0x3b, 0xbf, 0xd2, 0x5e, 0x8c, 0xd0, 0x36, 0x41, 0x41,
+];
+
+/// 0 < x < n
+pub fn scalar_in_range32(x: &[u8; 32]) -> bool {
+    !is_zero32(x) && lt32(x, &SECP256K1_ORDER)
 }
 
 /// A strict RLP header decoder used as the oracle for C06/C07: returns
@@ -124,12 +293,15 @@ pub fn rlp_strict_header(buf: &[u8]) -> Option<(bool, usize, usize)> {
     if buf[1] == 0 {
         return None; // leading zero in the length
     }
-    let mut n: usize = 0;
-    let mut i = 0;
-    while i < ll {
-        n = (n << 8) | buf[1 + i] as usize;
-        i += 1;
-    }
+    // big-endian length, straight-line (ll is 1..=8)
+    let mut n: usize = buf[1] as usize;
+    if ll > 1 { n = (n << 8) | buf[2] as usize; }
+    if ll > 2 { n = (n << 8) | buf[3] as usize; }
+    if ll > 3 { n = (n << 8) | buf[4] as usize; }
+    if ll > 4 { n = (n << 8) | buf[5] as usize; }
+    if ll > 5 { n = (n << 8) | buf[6] as usize; }
+    if ll > 6 { n = (n << 8) | buf[7] as usize; }
+    if ll > 7 { n = (n << 8) | buf[8] as usize; }
     if n < 56 {
         return None; // must have used the short form
     }
@@ -145,6 +317,18 @@ macro_rules! verif_harness {
         #[kani::stub($crate::__verif_common::stubs_active, $crate::__verif_common::stubs_active_on)]
         #[kani::stub(alloc::fmt::format, $crate::__verif_common::fmt_format_stub)]
         #[kani::stub(std::backtrace::Backtrace::capture, $crate::__verif_common::backtrace_capture_stub)]
+        $(#[$m])*
+        fn $name() $body
+    };
+}
+
+/// Like `verif_harness!` but without the `alloc::fmt::format` stub, for code under test whose
+/// *result* depends on `format!` (and which cannot reach an error path).
+#[macro_export]
+macro_rules! verif_harness_realfmt {
+    ($(#[$m:meta])* fn $name:ident() $body:block) => {
+        #[kani::proof]
+        #[kani::stub($crate::__verif_common::stubs_active, $crate::__verif_common::stubs_active_on)]
         $(#[$m])*
         fn $name() $body
     };
